@@ -147,7 +147,7 @@ def _replay_cases(ctx, binp, cases):
         ctx.counter += 1
         d = os.path.dirname(ctx.path("replay%d" % ctx.counter, ".x"))
         vlib.write_ndjson(os.path.join(d, "hists.ndjson"), [{"init": cases[i]["init"], "reqs": cases[i]["reqs"]} for i in idxs])
-        files, _ = _record(ctx, binp, os.path.join(d, "obs"), mode="hist", hists=os.path.join(d, "hists.ndjson"), shards=1, conc=conc)
+        files, _ = _record(ctx, binp, os.path.join(d, "obs"), mode="hist", hists=os.path.join(d, "hists.ndjson"), shards=1, conc=conc, wlimit=4096)
         rej, _ = ctx.judge("DavJudge", files, par=1)
         byline = {}
         for _, ln, s in rej:
@@ -286,9 +286,49 @@ def run(ctx, replay=None):
         for stl in styles:
             rec("raw-id-s%d" % stl, mode="product", trees=rtrees, reqs=rawout, style=stl, conc="id")
 
-    def product(name, reqs, treemod=1, treerem=0, conc="id", trees=trees, rootstyle=0):
-        files, info = _record(ctx, binp, ctx.path("obs", name), mode="product", trees=trees, reqs=reqs, shards=vlib.NCPU,
-                              treemod=treemod, treerem=treerem, conc=conc, rootstyle=rootstyle)
+
+    def wfault_universe():
+        """storage faults: a tree with files longer than DavTree.WLimit and every transfer / upload that has to write one, served while
+        no file may grow beyond the limit (RLIMIT_FSIZE, one recorder shard); if the file size limit cannot be set, the universe is empty"""
+        def ent(p, k, d=""):
+            return {"p": p, "k": k, "d": d, "n": 0}
+        t1 = [ent([], "c"), ent(["a"], "f", "B70000"), ent(["b"], "f", "x"), ent(["c"], "c"), ent(["c", "a"], "f", "y"), ent(["c", "b"], "f", "B70000")]
+        t2 = [ent([], "c"), ent(["a"], "c"), ent(["a", "a"], "f", "x"), ent(["a", "b"], "f", "B70000"), ent(["a", "c"], "f", "y"), ent(["b"], "c"), ent(["b", "b"], "f", "y")]
+        tp = os.path.join(gen, "wfault-trees.ndjson")
+        vlib.write_ndjson(tp, [t1, t2])
+        base = {"pflag": "ok", "c": "", "cn": 0, "fault": True, "fk": 0, "dform": "na", "dp": [], "depth": "absent", "ow": "absent", "ctype": "none",
+                "ifm": "unset", "ifnm": "unset", "pform": "na", "fmode": "wfault"}
+        reqs = []
+        paths = [["a"], ["b"], ["c"], ["n"], ["c", "a"], ["c", "b"], ["c", "n"], ["a", "b"], ["a", "n"], ["b", "b"], ["b", "n"]]
+        for p in paths:
+            for h in ("unset", "star"):
+                reqs.append(dict(base, m="PUT", p=p, c="B70000", ifnm=h))
+        for sp in ([["a"], ["b"], ["c"], ["c", "b"], ["a", "b"], ["a", "a"]]):
+            for dp in paths:
+                for depth in ("absent", "0", "infinity"):
+                    for ow in ("absent", "T", "F"):
+                        reqs.append(dict(base, m="COPY", p=sp, dform="path", dp=dp, depth=depth, ow=ow))
+                reqs.append(dict(base, m="MOVE", p=sp, dform="path", dp=dp, ow="T"))
+        rp = os.path.join(gen, "wfault-reqs.ndjson")
+        vlib.write_ndjson(rp, reqs)
+        product("wfault", rp, trees=tp, shards=1, wlimit=4096)
+
+    def ctxfault_universe(treemod, treerem):
+        """a client that goes away: every transfer, removal and collection creation of the main universe under a request context that
+        is cancelled before the handler runs, or reports cancellation from its k-th look on"""
+        rp = os.path.join(gen, "ctxfault-reqs.ndjson")
+        out = []
+        for r in vlib.read_ndjson(env["REQOUT"]):
+            if r["m"] in ("COPY", "MOVE", "DELETE", "MKCOL") and r["depth"] != "bad" and r["ow"] != "bad" and r["dform"] in ("na", "path"):
+                for fm in ("precancel", "ctxk1", "ctxk2", "ctxk3", "ctxk5"):
+                    out.append(dict(r, fmode=fm))
+        vlib.write_ndjson(rp, out)
+        product("ctxfault", rp, treemod=treemod, treerem=treerem)
+
+    def product(name, reqs, treemod=1, treerem=0, conc="id", trees=trees, rootstyle=0, shards=None, wlimit=0):
+        kw = {"wlimit": wlimit} if wlimit else {}
+        files, info = _record(ctx, binp, ctx.path("obs", name), mode="product", trees=trees, reqs=reqs, shards=shards or vlib.NCPU,
+                              treemod=treemod, treerem=treerem, conc=conc, rootstyle=rootstyle, **kw)
         for f in files:
             inputs[f] = {"trees": trees, "reqs": reqs}
         info["universe"] = name
@@ -354,7 +394,11 @@ def run(ctx, replay=None):
             # a sibling named like a scratch file of the target ("a.part", "a.tmp", "a~", ".a.tmp"): a failing upload to "a" must not touch it
             for ci, cn in enumerate(("parts", "tmps", "tildes", "dottmp")):
                 product("fault-" + cn, env["FAULTOUT"], treemod=12, treerem=(ctx.seed + 5 * ci) % 12, conc=cn)
+            wfault_universe()
+            ctxfault_universe(8, (ctx.seed + 1) % 8)
         else:
+            wfault_universe()
+            ctxfault_universe(2, ctx.seed % 2)
             product("fault", env["FAULTOUT"])
             product("main", env["REQOUT"])
             d = deep_instance()
@@ -376,6 +420,8 @@ def run(ctx, replay=None):
                                [{"p": [], "k": "c", "d": "", "n": 0}, {"p": ["b"], "k": "f", "d": "x", "n": 0}],
                                [{"p": [], "k": "c", "d": "", "n": 0}, {"p": ["b"], "k": "c", "d": "", "n": 0}, {"p": ["b", "b"], "k": "f", "d": "y", "n": 0}]])
         product("oslimits", env["REQOUT"], conc="toolong", trees=lt)
+        # storage faults (no file may grow beyond 4096 bytes while the request is served): write errors are a place where paths get into messages
+        wfault_universe()
         # configurations: the served directory spelled with a trailing slash, "/.", a doubled separator, a dot-dot detour
         # (rotating over the recorder's shards); everything else as in the main product
         # a listing beyond a thousand resources (limits are a place where messages get written)
